@@ -699,6 +699,16 @@ class ExecBase:
             return s.do_yield(p, NONE_SV, n)
         return s.seq([n.value], p, k)
 
+    def e_YieldFrom(s, n, p):
+        """yield from <sequence>: every element is yielded in order (recorded as one ghost 'all-of' entry)"""
+        def k(p1, vs):
+            seqv = vs[0]
+            if seqv.get("ty") not in ("list", "tuple") and not s.unit.options.get("iter_any_seq"):
+                raise Unsupported(f"yield from {seqv} @ line {n.lineno}")
+            p1.yielded.append(SV(seqv.t, all_of=(seqv, p1.snap())))
+            return [("ok", p1, NONE_SV)]
+        return s.seq([n.value], p, k)
+
     def do_yield(s, p, v, node):
         p.yielded.append(v)
         hook = s.unit.on_yield
